@@ -143,6 +143,7 @@ class C14(Prop):
         labels = {}         # id(obj) -> label
         keep = []           # keeps objects alive so ids are not reused
         sig = []
+        states = set()
         cleared = False
         inferred_ids = set()
 
@@ -329,6 +330,8 @@ class C14(Prop):
                             sim.count("overlap_raised:" + type(e).__name__)
                 if _symbolic_mode.get() is not None:
                     _symbolic_mode.set(None)
+                states.add((kind, min(len(model), 8), cleared, len(inferred_ids) > 0,
+                            tuple(sorted({type(o).__name__ for o in model}))))
                 sim.end_op()
                 if sim.violations:
                     break
@@ -344,6 +347,7 @@ class C14(Prop):
         res.counters = sim.counters
         res.signature = tuple(sig)
         res.steps = sim.seq
+        res.states = tuple(states)
         return res
 
     def shrink_candidates(self, plan):
